@@ -26,6 +26,7 @@ RULE = (
     "application; each history is run with fresh RawArgs per run and with the same RawArgs object reused for consecutive "
     "equal lines. Components (table, help pages, paragraph, labeled paragraph, name/version, exception trace) are rendered "
     "twice. All 24 orders of creating the predefined table styles x customisations of one of them, each in a pristine "
+    "Also: lines with blanks inside tokens, a handler registering a style at run time, a command that owns its question and is given typed input. "
     "subprocess, compared with a process that created only the rendered style. non-trivial = history with a help or failing "
     "run before a normal run; distinct by tuple of line ids / (order, customisation)."
 )
